@@ -267,6 +267,120 @@ fn lexer_comments(src: &str) -> Option<Vec<(usize, String, bool)>> {
     Some(res)
 }
 
+/// The tokens of rustc_lexer as tokens of the Lean specification `RF.LexSpec` (request of `lex.check`) and
+/// the flags expected for a well-formed list: one `0|1` per character, 1 = inside a comment token or the
+/// newline that ends a line comment.  `None` when the text does not lex cleanly.
+fn lexspec_case(src: &str) -> Option<(String, Vec<String>, String)> {
+    use rustc_lexer::{LiteralKind as LK, TokenKind as K};
+    lexer_comments(src)?;
+    let mut kinds = String::new();
+    let mut texts: Vec<String> = vec![];
+    let mut flags = String::new();
+    let push_code = |kinds: &mut String, texts: &mut Vec<String>, t: &str| {
+        if t.is_empty() {
+            return;
+        }
+        if kinds.ends_with('c') {
+            texts.last_mut().unwrap().push_str(t);
+        } else {
+            kinds.push('c');
+            texts.push(t.to_string());
+        }
+    };
+    let mut pos = 0usize;
+    let mut skip_newline = false;
+    for t in rustc_lexer::tokenize(src) {
+        let len = t.len as usize;
+        let mut text = &src[pos..pos + len];
+        pos += len;
+        if skip_newline {
+            // the newline that ended the line comment belongs to the comment token of the specification
+            text = text.strip_prefix('\n')?;
+            flags.push('1');
+            skip_newline = false;
+        }
+        let n = text.chars().count();
+        match t.kind {
+            K::Eof => {}
+            K::LineComment { .. } => {
+                let at_end = pos == src.len();
+                kinds.push(if at_end { 'L' } else { 'l' });
+                texts.push(text.to_string());
+                flags.push_str(&"1".repeat(n));
+                skip_newline = !at_end;
+            }
+            K::BlockComment { .. } => {
+                kinds.push('b');
+                texts.push(text.to_string());
+                flags.push_str(&"1".repeat(n));
+            }
+            K::Literal { kind, suffix_start } => {
+                let ss = suffix_start as usize;
+                let (k, plen) = match kind {
+                    LK::Str { .. } => ('s', 0),
+                    LK::ByteStr { .. } | LK::CStr { .. } => ('s', 1),
+                    LK::RawStr { .. } => ('r', 0),
+                    LK::RawByteStr { .. } | LK::RawCStr { .. } => ('r', 1),
+                    LK::Char { .. } => ('h', 0),
+                    LK::Byte { .. } => ('h', 1),
+                    _ => ('c', 0),
+                };
+                if k == 'c' {
+                    push_code(&mut kinds, &mut texts, text);
+                } else {
+                    push_code(&mut kinds, &mut texts, &text[..plen]);
+                    kinds.push(k);
+                    texts.push(text[plen..ss].to_string());
+                    push_code(&mut kinds, &mut texts, &text[ss..]);
+                }
+                flags.push_str(&"0".repeat(n));
+            }
+            _ => {
+                push_code(&mut kinds, &mut texts, text);
+                flags.push_str(&"0".repeat(n));
+            }
+        }
+    }
+    if skip_newline {
+        return None;
+    }
+    Some((kinds, texts, flags))
+}
+
+/// `lex.check` on a batch of texts.  The answer `quirk` (the token list is not well-formed for the
+/// specification: a shape excluded from the agreement theorem) is counted, never a failure; any other
+/// answer must be the lexer's comment flags - those cases are kept for Outcome::finish, which reports them.
+fn run_lexspec(o: &mut Outcome, srcs: &[(String, String)]) {
+    let mut reqs = vec![];
+    let mut meta = vec![];
+    for (src, desc) in srcs {
+        if let Some((kinds, texts, flags)) = lexspec_case(src) {
+            if !kinds.is_empty() {
+                reqs.push(format!("lex.check {} {}", kinds, enc_list(&texts)));
+                meta.push((flags, desc.clone()));
+            }
+        }
+    }
+    let answers = run_model(&reqs, jobs());
+    let mut kept = 0;
+    for ((req, ans), (flags, desc)) in reqs.into_iter().zip(answers.iter()).zip(meta.into_iter()) {
+        if ans == "quirk" {
+            o.count("lexspec:not-well-formed(quirk shape)");
+            o.direct_evals += 1;
+        } else if *ans == flags && kept >= 300 {
+            o.count("lexspec:agrees");
+            o.direct_evals += 1;
+            o.direct_distinct += 1;
+        } else {
+            if *ans == flags {
+                kept += 1;
+                o.count("lexspec:agrees");
+            }
+            o.push("oracle", "lex.check", req, flags, desc, true);
+        }
+    }
+}
+
 /// the shapes on which CharClasses is known to part from the Rust lexer (proved as counter-examples
 /// in RF/Props/C03.lean): a `"` inside a block comment (it opens a "string" in which `/*` is not
 /// counted), a raw identifier (`r#`), `'` followed by a character and a `'` that is not a char literal
@@ -441,6 +555,20 @@ fn part_corr(o: &mut Outcome, rng: &mut Rng, thorough: bool) {
         }
     }
     o.count_n("lexer:random-compared", compared);
+    // the lexer's tokens as tokens of the declarative specification (RF.LexSpec): well-formed lists must
+    // carry the lexer's comment flags (and, by theorem charClasses_agrees_lexSpec_partial, CharClasses' too)
+    let mut srcs: Vec<(String, String)> = vec![];
+    for k in 0..take.min(progs.len()) {
+        let p = &progs[(start + k) % progs.len()];
+        if p.src.len() <= 20000 {
+            srcs.push((p.src.clone(), p.name.clone()));
+        }
+    }
+    for _ in 0..(if thorough { 40000 } else { 4000 }) {
+        let n = rng.range(1, 10);
+        srcs.push((tame_text(rng, n), "random-lexable".into()));
+    }
+    run_lexspec(o, &srcs);
 }
 
 // ------------------------------------------------------------------------------------------------
@@ -463,6 +591,13 @@ const TEMPLATES: &[(&str, &str)] = &[
     ("args", "fn f3() {\n    call(@AI@1, @AI@2, @AI@3@AL@);\n    call(\n        @AB@alpha,@AT@\n        @AB@beta,@AT@\n        @AB@gamma,@AT@\n    @AE@);\n    let v = x.method(@AI@a, @AI@b@AL@);\n    let w = x.method(\n        @AB@a,@AT@\n        @AB@b,@AT@\n    @AE@).other();\n    let t = S::new(@AI@1, @AI@call(@AI@2, @AI@3@AL@)@AL@);\n}\n"),
     ("inside1", "fn f4(a: u32, b: u32) -> u32 {\n    @X{@let x = a + b * 2;@X}@\n    @X{@let y: Vec<u32> = vec.iter().map(|v| v + 1).collect();@X}@\n    @X{@let S { p, q } = s;@X}@\n    @X{@x = if a > b { a } else { b };@X}@\n    @X{@call(a, b)?;@X}@\n    @X{@return foo.bar(a).baz(b, c);@X}@\n}\n"),
     ("inside2", "fn f6(a: u32, b: u32) {\n    @X{@let z = match a { 0 => 1, _ => 2 };@X}@\n    @X{@let arr = [1, 2, 3];@X}@\n    @X{@let tup = (a, b);@X}@\n    @X{@let s = S { p: 1, q: 2 };@X}@\n    @X{@let r = &mut x[1..2];@X}@\n    @X{@let c = a as u64;@X}@\n}\n"),
+    ("items2", "@IB@pub(crate) fn g0() {}@IT@\n@IB@unsafe fn g1() {}@IT@\n@IB@extern \"C\" {@IT@\n    @IB@fn ext_a();@IT@\n    @IB@fn ext_b();@IT@\n@IE@}@IT@\n@IB@union Un {\n    a: u32,\n}@IT@\n@IB@fn outer() {@ST@\n    @SB@fn inner_a() {}@ST@\n    @SB@const IN: u32 = 1;@ST@\n    @SB@struct Local;@ST@\n    @SB@let z = 1;@ST@\n@SE@}@IT@\n@IB@impl Tr for S {@IT@\n    @IB@type X = u32;@IT@\n    @IB@fn a(&self) {}@IT@\n@IE@}@IT@\n@IB@macro_rules! mm {\n    () => {};\n}@IT@\n@IB@mm!();@IT@\n@IE@"),
+    ("stmts2", "fn f8(o: Option<u32>) -> u32 {\n    @SB@let Some(v) = o else {@ST@\n        @SB@return 0;@ST@\n    @SE@};@ST@\n    @SB@while let Some(w) = next() {@ST@\n        @SB@use_it(w);@ST@\n    @SE@}@ST@\n    @SB@if let Some(q) = o {@ST@\n        @SB@use_it(q);@ST@\n    @SE@}@ST@\n    @SB@unsafe {@ST@\n        @SB@danger();@ST@\n    @SE@}@ST@\n    @SB@match v {@ST@\n        0 => {@ST@\n            @SB@use_it(0);@ST@\n        @SE@}@ST@\n        _ => {}@ST@\n    }@ST@\n    @SB@'outer: loop {@ST@\n        @SB@break 'outer;@ST@\n    @SE@}@ST@\n    @SB@let t = {@ST@\n        @SB@let u = 1;@ST@\n        @SB@u + 1@ST@\n    @SE@};@ST@\n    @SB@vec![1, 2];@ST@\n    @SB@return v;@ST@\n@SE@}\n"),
+    ("fields2", "pub struct T1<'a> {@FT@\n    @FB@pub(crate) name: &'a str,@FT@\n    @FB@pub id: u64,@FT@\n\n    @FB@flags: [u8; 4],@FT@\n@FE@}\n\nunion U1 {@FT@\n    @FB@a: u32,@FT@\n    @FB@b: f32,@FT@\n@FE@}\n\nstruct T2(@FI@pub(crate) u8, @FI@u16@FL@);\n\nenum W { V { @FI@a: u8, @FI@b: u8@FL@ }, X {\n    @FB@c: u8,@FT@\n    @FB@d: u8,@FT@\n@FE@} }\n"),
+    ("arms2", "fn f9(x: (u32, u32), y: Option<u32>) -> u32 {\n    let r = match x {@MT@\n        @MB@(0, 0) => 0,@MT@\n        @MB@(a, 0)\n        | (0, a) => a,@MT@\n        @MB@(a, b) if a > b => {@MT@\n            a - b\n        }@MT@\n        @MB@(a, b) => match y {@MT@\n            @MB@Some(v) => v + a + b,@MT@\n            @MB@None => 0,@MT@\n        @ME@},@MT@\n    @ME@};\n    r\n}\n"),
+    ("params2", "pub fn q1<T: Clone>(@PI@first: T, @PI@second: &mut Vec<T>@PL@) -> Option<T> where T: Default {\n    None\n}\n\nextern \"C\" fn q2(@PI@a: i32, @PI@b: *const u8@PL@) {}\n\nimpl S {\n    pub fn q3(\n        @PB@self: Box<Self>,@PT@\n        @PB@(a, b): (u32, u32),@PT@\n        @PB@_: &str@PT@\n    @PE@) -> u32 {\n        a\n    }\n}\n\ntrait T2 {\n    fn q4(\n        @PB@&self,@PT@\n        @PB@other: &Self,@PT@\n    @PE@) -> bool;\n}\n"),
+    ("args2", "fn f10() {\n    let a = x.first(@AI@1, @AI@2@AL@).second(@AI@3@AL@).third();\n    let b = Some(@AI@value@AL@);\n    let c = outer(@AI@inner(@AI@1@AL@), @AI@|z| z + 1, @AI@S { p: 1 }@AL@);\n    println!(@AI@\"{} {}\", @AI@a, @AI@b@AL@);\n    let d = vec![@AI@1, @AI@2, @AI@3@AL@];\n    x.call(\n        @AB@first_argument_name,@AT@\n        @AB@second_argument_name(1),@AT@\n    @AE@)?;\n    assert_eq!(\n        @AB@left,@AT@\n        @AB@right,@AT@\n    @AE@);\n}\n"),
+    ("inside4", "fn f11(a: u32, v: Vec<u32>) -> Option<u32> {\n    @X{@let Some(x) = v.first() else { return None };@X}@\n    @X{@for (i, e) in v.iter().enumerate() { call(i, e); }@X}@\n    @X{@let w = if let Some(y) = v.get(1) { *y } else { 0 };@X}@\n    @X{@let t: (u32, &str) = (1, \"s\");@X}@\n    @X{@v.iter().filter(|e| **e > a).map(|e| e * 2).sum::<u32>();@X}@\n    @X{@Some(a + w)@X}@\n}\n"),
     ("inside3", "fn f7(mut a: u32, b: u32) {\n    @X{@while a < b { a += 1; }@X}@\n    @X{@let cl = move |q: u32| -> u32 { q + 1 };@X}@\n    @X{@let u = unsafe { f() };@X}@\n    @X{@x.y.z = !w && (a || b);@X}@\n    @X{@println!(\"{}\", a);@X}@\n    @X{@let n = -a;@X}@\n}\n"),
 ];
 
@@ -527,7 +662,7 @@ fn templates() -> Vec<Template> {
     TEMPLATES.iter().map(|(n, t)| parse_template(n, t)).collect()
 }
 
-const STYLES: &[&str] = &["L", "B", "BM", "LL", "LB", "BL", "BB"];
+const STYLES: &[&str] = &["L", "B", "BM", "BS", "LL", "LB", "BL", "BB", "Lt", "Bt", "L4", "nLn", "nBn"];
 const GEN_WIDTHS: &[usize] = &[20, 25, 30, 35, 40, 50, 60, 80, 100, 200];
 const GEN_OPTS: &[(&str, &[(&str, &str)])] = &[
     ("base", &[]),
@@ -593,22 +728,36 @@ fn render(t: &Template, hole: &Hole, style: &str) -> String {
         _ => "inline", // ?I ?L X
     };
     let multi = |k: usize, ind: &str| format!("/* c03m{} alpha{}\n{} * beta gamma\n{} */", k, k, ind, ind);
+    let bare = |k: usize, ind: &str| format!("/*\n{}  c03m{} alpha{}\n{}  beta gamma\n{}*/", ind, k, k, ind, ind);
+    let blank_around = style.starts_with('n');
     let parts: Vec<String> = match style {
-        "L" => vec![line_c(1)],
-        "B" => vec![block_c(1)],
+        "L" | "nLn" => vec![line_c(1)],
+        "B" | "nBn" => vec![block_c(1)],
         "BM" => vec![multi(1, &indent)],
+        "BS" => vec![bare(1, &indent)],
         "LL" => vec![line_c(1), line_c(2)],
         "LB" => vec![line_c(1), block_c(2)],
         "BL" => vec![block_c(1), line_c(2)],
         "BB" => vec![block_c(1), block_c(2)],
+        "Lt" => vec![format!("//c03m1 alpha1")],
+        "Bt" => vec![format!("/*c03m1 alpha1*/")],
+        "L4" => vec![format!("//// {}", comment_body(1))],
         _ => unreachable!(),
     };
     let mut ins = String::new();
     match mode {
         "own" => {
             // each comment on its own line, the element follows on the next line at the same indent
+            if blank_around {
+                ins.push('\n');
+                ins.push_str(&indent);
+            }
             for p in &parts {
                 ins.push_str(p);
+                ins.push('\n');
+                ins.push_str(&indent);
+            }
+            if blank_around {
                 ins.push('\n');
                 ins.push_str(&indent);
             }
@@ -788,6 +937,11 @@ fn measure(elems: &[Elem], timeout: Duration) -> Vec<(String, String)> {
     for chunk in elems.chunks(20000) {
         let jobs_v: Vec<Job> = chunk.iter().map(|e| Job { src: e.src.clone(), cfg: e.cfg.clone(), file_lines: None }).collect();
         let res = pool::run_jobs(&jobs_v, jobs(), timeout);
+        let mut why: BTreeMap<String, usize> = BTreeMap::new();
+        for r in &res {
+            *why.entry(format!("{:?}", r.status).chars().take(40).collect()).or_insert(0) += 1;
+        }
+        eprintln!("batch of {}: {:?}", chunk.len(), why);
         let mut reqs = vec![];
         let mut idx = vec![];
         for (i, (e, r)) in chunk.iter().zip(res.iter()).enumerate() {
@@ -840,19 +994,28 @@ fn part_search(o: &mut Outcome, rng: &mut Rng, tier: &str) {
     let nholes: usize = ts.iter().map(|t| t.holes.len()).sum();
     o.count_n("gen:holes", nholes as u64);
     o.count_n("gen:universe", (nholes * STYLES.len() * GEN_WIDTHS.len() * GEN_OPTS.len()) as u64);
-    // the elements of this run: every (hole, style) with `reps` seeded (width, option set) choices
-    let reps = if thorough { 24 } else { 2 };
+    // the elements of this run: thorough = the whole generated universe; quick = every (hole, style)
+    // with 4 seeded (width, option set) choices
     let mut chosen: Vec<Elem> = vec![];
     let mut seen: HashSet<String> = HashSet::new();
-    for t in &ts {
-        for hi in 0..t.holes.len() {
-            for style in STYLES {
-                for _ in 0..reps {
-                    let w = *rng.pick(GEN_WIDTHS);
-                    let opt = rng.pick(GEN_OPTS).0;
-                    let e = gen_elem(t, hi, style, w, opt);
-                    if !dirty.contains(&e.id) && seen.insert(e.id.clone()) {
-                        chosen.push(e);
+    if thorough {
+        for e in gen_universe(&ts) {
+            if !dirty.contains(&e.id) {
+                chosen.push(e);
+            }
+        }
+        o.exhaustive = true;
+    } else {
+        for t in &ts {
+            for hi in 0..t.holes.len() {
+                for style in STYLES {
+                    for _ in 0..4 {
+                        let w = *rng.pick(GEN_WIDTHS);
+                        let opt = rng.pick(GEN_OPTS).0;
+                        let e = gen_elem(t, hi, style, w, opt);
+                        if !dirty.contains(&e.id) && seen.insert(e.id.clone()) {
+                            chosen.push(e);
+                        }
                     }
                 }
             }
@@ -877,24 +1040,48 @@ fn part_search(o: &mut Outcome, rng: &mut Rng, tier: &str) {
             }
         }
     }
-    let jobs_v: Vec<Job> = chosen.iter().map(|e| Job { src: e.src.clone(), cfg: e.cfg.clone(), file_lines: None }).collect();
-    let res = pool::run_jobs(&jobs_v, jobs(), timeout);
-    for (e, r) in chosen.iter().zip(res.iter()) {
-        let fam = if e.id.starts_with("g|") { "gen" } else { "fix" };
-        match judge(e, r) {
-            Verdict::Judged { request, lost_reported, context_kept } => {
-                o.count(&format!("{}:judged", fam));
-                let changed = r.out != e.src;
-                o.push("oracle", if request.starts_with("cm.words") { "cm.words(real)" } else { "cm.preserved(real)" }, request, "ok".into(), format!("{} [{}]", e.id, cfg_text(&e.cfg)), changed);
-                if lost_reported {
-                    o.count(&format!("{}:lost-comment-reported", fam));
-                    o.direct_evals += 1;
-                    if !context_kept {
-                        o.direct_failures.push(json!({"sig": format!("c03:lost-comment-reported-but-rewritten:{}", hole_key(&e.id)), "what": "the report carries LostComment but the tokens around the comment were not left as written", "case": e.id, "config": cfg_text(&e.cfg), "src": e.src, "out": r.out}));
+    // batches: the oracle answers are computed per batch so that only the failing requests (and a
+    // few passing ones as samples) are kept in memory; Outcome::finish evaluates those again
+    let mut kept_passing = 0usize;
+    for chunk in chosen.chunks(20000) {
+        let jobs_v: Vec<Job> = chunk.iter().map(|e| Job { src: e.src.clone(), cfg: e.cfg.clone(), file_lines: None }).collect();
+        let res = pool::run_jobs(&jobs_v, jobs(), timeout);
+        let mut reqs: Vec<String> = vec![];
+        let mut meta: Vec<(usize, bool)> = vec![];
+        for (i, (e, r)) in chunk.iter().zip(res.iter()).enumerate() {
+            let fam = if e.id.starts_with("g|") { "gen" } else { "fix" };
+            match judge(e, r) {
+                Verdict::Judged { request, lost_reported, context_kept } => {
+                    o.count(&format!("{}:judged", fam));
+                    reqs.push(request);
+                    meta.push((i, r.out != e.src));
+                    if lost_reported {
+                        o.count(&format!("{}:lost-comment-reported", fam));
+                        o.direct_evals += 1;
+                        if !context_kept {
+                            o.direct_failures.push(json!({"sig": format!("c03:lost-comment-reported-but-rewritten:{}", hole_key(&e.id)), "what": "the report carries LostComment but the tokens around the comment were not left as written", "case": e.id, "config": cfg_text(&e.cfg), "src": e.src, "out": r.out}));
+                        }
                     }
                 }
+                Verdict::NotJudged(why) => o.count(&format!("{}:not-judged:{}", fam, why)),
             }
-            Verdict::NotJudged(why) => o.count(&format!("{}:not-judged:{}", fam, why)),
+        }
+        let answers = run_model(&reqs, jobs());
+        for ((req, ans), (i, changed)) in reqs.into_iter().zip(answers.iter()).zip(meta.iter()) {
+            let e = &chunk[*i];
+            let op = if req.starts_with("cm.words") { "cm.words(real)" } else { "cm.preserved(real)" };
+            if ans != "ok" || kept_passing < 3000 {
+                if ans == "ok" {
+                    kept_passing += 1;
+                }
+                o.push("oracle", op, req, "ok".into(), format!("{} [{}]", e.id, cfg_text(&e.cfg)), *changed);
+            } else {
+                o.direct_evals += 1;
+                if *changed {
+                    o.direct_distinct += 1;
+                }
+                o.count(&format!("oracle:{}:ok(batch)", op));
+            }
         }
     }
     if let Some(e) = chosen.first() {
@@ -1004,6 +1191,6 @@ pub fn run(tier: &str, seed: u64, out: &Path) -> i32 {
     if which.contains("search") {
         part_search(&mut o, &mut r2, tier);
     }
-    o.notes.push("generated universe = templates x holes x 7 comment styles x 10 widths x 30 option sets, every (hole, style) is run with 2 (quick) / 24 (thorough) seeded (width, option set) choices; fixture universe = fixtures with a non-doc comment x {base, 7 widths, 20 option singles}; elements listed in corpus/c03_dirty.txt run as probes".into());
+    o.notes.push("generated universe = 17 templates x holes x 13 comment styles x 10 widths x 30 option sets: quick runs every (hole, style) with 4 seeded (width, option set) choices, thorough runs the whole universe; fixture universe = fixtures with a non-doc comment x {base, 7 widths, 20 option singles}; elements listed in corpus/c03_dirty.txt run as probes".into());
     o.finish(out, jobs())
 }
